@@ -9,7 +9,7 @@ from refber import TAGS
 
 UPTIME = (1, 3, 6, 1, 2, 1, 1, 3, 0)
 TRAPOID = (1, 3, 6, 1, 6, 3, 1, 1, 4, 1, 0)
-SRC = {"s4": ("192.0.2.7", 4242), "s4b": ("198.51.100.9", 162), "s6": ("2001:db8::7", 4242, 0, 0), "s6ll": ("fe80::1", 50000, 0, 3)}
+SRC = {"s4max": ("192.0.2.7", 65535), "s4min": ("192.0.2.8", 1), "s6max": ("2001:db8::9", 65535, 0, 0), "s4": ("192.0.2.7", 4242), "s4b": ("198.51.100.9", 162), "s6": ("2001:db8::7", 4242, 0, 0), "s6ll": ("fe80::1", 50000, 0, 3)}
 
 
 def notification(community: bytes, payload, reqid=77, version=1, ptype=TRAP2):
